@@ -1,8 +1,9 @@
 (* C11 - the network-level check accepts every complete run of the model's network relation (any schedule, any
-   per-node iteration order, any link set, any originator) on the configuration classes it is claimed for. *)
+   per-node iteration order, any link set, any originator) on every well-formed zone forest and every target. *)
 From Coq Require Import List Arith Bool PeanoNat Lia.
 From Icv Require Import Route.RtModel Route.RtProofs Route.RtObs Route.RtOracleProofs Route.RtNet Route.RtSched Route.RtNetSound
-     Route.RtChain Route.RtChainSafe Route.RtChainComplete Route.RtTree Route.RtTreeSafe Route.RtTreeComplete Route.RtNetObs.
+     Route.RtChain Route.RtChainSafe Route.RtChainComplete Route.RtTree Route.RtTreeSafe Route.RtTreeComplete
+     Route.RtLine Route.RtLineSafe Route.RtLineComplete Route.RtNetObs.
 Import ListNotations.
 
 Lemma rt_NoDup_nodup_b : forall l, NoDup l -> rt_nodup_b l = true.
@@ -20,21 +21,19 @@ Theorem rt_net_oracle_accepts : forall c links target s lz nord k st',
 Proof.
   intros c links target s lz nord k st' E Hn R F. unfold rt_net_oracle.
   destruct (rt_net_pre_b c target) eqn:Pre; cbn [negb]; [|reflexivity]. rewrite E.
-  unfold rt_net_pre_b in Pre. apply orb_true_iff in Pre.
+  unfold rt_net_pre_b in Pre. apply andb_true_iff in Pre. destruct Pre as [W _]. apply rt_tree_wf_b_spec in W.
   assert (NoDup (snd st') /\ k < length (flat_map rt_zeps c) /\ rt_final_complete c links target lz (snd st') = true) as [A [B C]].
-  { destruct Pre as [Pre|Pre]; apply andb_true_iff in Pre; destruct Pre as [W G].
-    - apply rt_chain_wf_b_spec in W. apply Nat.ltb_lt in G.
-      destruct (rt_chain_finite_once c links target nord W G Hn s lz E k st' R) as [K1 [_ [[_ K2] _]]].
+  { destruct (rt_global c target) eqn:G.
+    - destruct (rt_tree_finite_once c links target nord W G Hn s lz E k st' R) as [K1 [_ [[_ K2] _]]].
       split; [|split].
       + apply rt_nodup_app_inv in K2. tauto.
       + rewrite <- rt_all_eps_zeps. assumption.
-      + exact (rt_chain_complete c links target nord s lz W G Hn E k st' R F).
-    - apply rt_tree_wf_b_spec in W.
-      destruct (rt_tree_finite_once c links target nord W G Hn s lz E k st' R) as [K1 [_ [[_ K2] _]]].
+      + exact (rt_tree_complete c links target nord s lz W G Hn E k st' R F).
+    - destruct (rt_line_finite_once c links target nord W G Hn s lz E k st' R) as [K1 [_ [[_ K2] _]]].
       split; [|split].
       + apply rt_nodup_app_inv in K2. tauto.
       + rewrite <- rt_all_eps_zeps. assumption.
-      + exact (rt_tree_complete c links target nord s lz W G Hn E k st' R F). }
+      + exact (rt_line_complete c links target nord s lz W G Hn E k st' R F). }
   rewrite (rt_NoDup_nodup_b _ A). cbn [negb].
   apply Nat.ltb_lt in B. rewrite B. cbn [negb]. rewrite C. reflexivity.
 Qed.
